@@ -11,13 +11,69 @@ import os, re
 class GenError(Exception):
     pass
 
+_CANON = os.path.join(os.path.dirname(os.path.abspath(__file__)), "rustfmt-canon.toml")
+_fmt_cache = {}
+_bin = []
+
+def _rustfmt_bin():
+    """the toolchain's rustfmt itself (the ~/.cargo/bin proxy re-resolves the toolchain on every call)"""
+    if not _bin:
+        b = "rustfmt"
+        try:
+            import subprocess
+            q = subprocess.run(["rustup", "which", "rustfmt"], stdout=subprocess.PIPE, stderr=subprocess.DEVNULL, text=True, timeout=60)
+            if q.returncode == 0 and os.path.exists(q.stdout.strip()):
+                b = q.stdout.strip()
+        except Exception:
+            pass
+        _bin.append(b)
+    return _bin[0]
+
+def canonical_format(text):
+    """The extractors are anchored on source lines, so they see the source in ONE canonical lay-out: the text is
+    piped through `rustfmt` (default style, pinned in tools/rustfmt-canon.toml, whatever rustfmt.toml the tree has).
+    The pinned tree is rustfmt-clean, so this is the identity there; a re-formatted but otherwise unchanged tree
+    yields the same tables instead of a broken source tie.  If rustfmt is missing or rejects the file (syntax
+    error: cargo will say so), the raw text is used."""
+    if text in _fmt_cache:
+        return _fmt_cache[text]
+    import hashlib
+    cdir = os.path.join(os.path.dirname(os.path.dirname(os.path.abspath(__file__))), ".build", "fmtcache")
+    cfile = os.path.join(cdir, hashlib.sha256(text.encode("utf-8")).hexdigest())
+    try:
+        with open(cfile, encoding="utf-8") as f:      # content-addressed: valid for whatever tree the text came from
+            _fmt_cache[text] = f.read()
+            return _fmt_cache[text]
+    except OSError:
+        pass
+    out = text
+    try:
+        import subprocess
+        p = subprocess.run([_rustfmt_bin(), "--edition", "2021", "--emit", "stdout", "--config-path", _CANON],
+                           input=text, stdout=subprocess.PIPE, stderr=subprocess.DEVNULL, text=True, timeout=60)
+        if p.returncode == 0 and p.stdout.strip():
+            out = p.stdout
+    except Exception:
+        pass
+    _fmt_cache[text] = out
+    try:
+        os.makedirs(cdir, exist_ok=True)
+        tmp = cfile + ".%d" % os.getpid()
+        with open(tmp, "w", encoding="utf-8") as f:
+            f.write(out)
+        os.replace(tmp, cfile)
+    except OSError:
+        pass
+    return out
+
 def read(repo, rel):
     p = os.path.join(repo, rel)
     try:
         with open(p, encoding="utf-8") as f:
-            return f.read()
+            text = f.read()
     except OSError as e:
         raise GenError(f"cannot read {p}: {e}")
+    return canonical_format(text) if rel.endswith(".rs") else text
 
 def strip_tests(src):
     """Drop everything from the first `#[cfg(test)]` on (unit tests repeat constants)."""
